@@ -26,6 +26,7 @@ inductive ErrKind
   | noPrefix                 -- noPrefixParseFnError
   | badFloat                 -- parseFloatLiteral
   | lambdaParams             -- parseLambdaMulti
+  | funcParams               -- parseFunctionParameters
   deriving DecidableEq, Repr
 
 inductive Res (α : Type)
@@ -199,10 +200,13 @@ def parseFunctionParameters (s : TokStream) (fuel : Nat) : PM (NList × Bool) :=
     let ids ← parseFunctionParametersLoop s fuel [some (.ident st.cur.tk)]
     if !(← expectPeek s .RPAREN) then pure ([], false)
     else
-      let st ← getSt
-      match st.prev with
-      | none => goPanic .nilPrevToken
-      | some p => pure (ids, p.type = .DOTDOT)
+      -- the rule of lambda parameters: identifiers, the last one can be `..` (paramError otherwise)
+      match okParamList ids with
+      | some (t, true) => pure (ids, t.isSome)
+      | _ =>
+        errorLine s
+        pushErr .funcParams
+        pure ([], false)
 
 /-- rewrite the value of every nil key of the flat key/value list -/
 def setNilKeyVals (v : ONode) : NList → NList
